@@ -273,6 +273,41 @@ def extra_predicate_rule(ctx, rid, f, with_reaper):
             id_names.add(nm)
             return sym("id")
         return d[1]
+    # idiom B: the length is read from the sown batch file of the same id
+    se = size_e
+    dsz = single_def(ld, se.id) if isinstance(se, ast.Name) else None
+    se_x = dsz[1] if dsz else se
+    if isinstance(se_x, ast.Call) and isinstance(se_x.func, ast.Name) and se_x.func.id == "len" and len(se_x.args) == 1:
+        inner = se_x.args[0]
+        d_in = single_def(ld, inner.id) if isinstance(inner, ast.Name) else None
+        inner_x = d_in[1] if d_in else inner
+        # names feeding the loaded path, following single local definitions
+        reach, todo, texts = set(), [inner_x], [norm(inner_x)]
+        while todo:
+            ex = todo.pop()
+            for nmx in names_in(ex):
+                if nmx in reach:
+                    continue
+                reach.add(nmx)
+                dd = single_def(ld, nmx)
+                if dd:
+                    todo.append(dd[1])
+                    texts.append(norm(dd[1]))
+        path_txt = " ".join(texts)
+        if "read_from_disk(" in path_txt and "'batches'" in path_txt and "BTCH_NM.format(" in path_txt:
+            def is_id(nmx):
+                dd = single_def(ld, nmx)
+                return bool(dd) and "RSLT_NM.format(" in norm(dd[1]) and "re." in norm(dd[1])
+            fmt_args = []
+            for t in texts:
+                for x in ast.walk(ast.parse(t, mode="eval")):
+                    if isinstance(x, ast.Call) and isinstance(x.func, ast.Attribute) and x.func.attr == "format" and norm(x.func.value) == "BTCH_NM":
+                        fmt_args += [norm(a) for a in x.args]
+            if fmt_args and all(is_id(a) for a in fmt_args):
+                rr.ok("Reaper: placeholder length = len() of the sown batch file with the id parsed from the result name (exact for every batch, including a short last one)")
+                return rr
+            rr.bad(ctx.finding(rid, ld, size_e, "the placeholder length is read from a batch file whose id (%s) is not the one parsed from the missing result's name" % fmt_args, construct="placeholder-batch-id"), "reaper size")
+            return rr
     try:
         L = lin(size_e, subst=sub2, rename=last_attr)
     except NotAffine as e:
@@ -291,6 +326,13 @@ def extra_predicate_rule(ctx, rid, f, with_reaper):
         raise AnalysisError("idiom changed: the Reaper's batch id is not parsed from the result name with the RSLT_NM template")
     if kr is None:
         raise AnalysisError("Reaper predicate not in a recognised form: %s" % ptxt)
+    # the formula assumes every batch is full; with a requested batch *size* the last batch is short whenever it does not divide N
+    crop = prog.need_cls(CROP + ".Crop")
+    cbs = crop.methods.get("choose_batch_settings")
+    size_mode = cbs is not None and any(isinstance(x, ast.Call) and "ceil" in norm(x.func) for x in ast.walk(cbs.node))
+    if size_mode:
+        rr.bad(ctx.finding(rid, ld, size_e, "the Reaper sizes the placeholder of a missing batch by the formula batchsize + [extra] (`%s`), but with a requested batch *size* that does not divide the number of settings the Sower's last batch is shorter than batchsize (flushed on exit): a partial reap with that last batch missing gets a placeholder that is too long and fails with 'Not all results reaped!' (e.g. 5 settings, batchsize=2, batch 3 missing)"
+                           % norm(size_e), construct="placeholder-size-formula-short-last-batch"), "reaper size exact for a short last batch")
     if kr != ks:
         rr.bad(ctx.finding(rid, ld, size_e, "the Reaper sizes a missing batch with `%s` (extra iff id <= remainder%+d) but the Sower wrote the extra setting into batches with id <= remainder%+d: a partial reap with the boundary batch missing gets a placeholder of the wrong length" % (ptxt, kr, ks),
                            construct="reaper-extra-predicate"), "reaper predicate equals sower's")
